@@ -28,7 +28,7 @@ var c15Alphabet = []c15Group{
 	{"unknown-action", "bad", 1}, {"delete", "bad", 1}, {"update", "bad", 2},
 	{"no-index-name", "either", 2},
 	{"bad-index-name", "either", 2}, // a name the index-name rules reject (path separator)
-	{"index-no-doc", "bad", 1}, // only meaningful as the last group
+	{"index-no-doc", "bad", 1},      // only meaningful as the last group
 }
 
 type c15Job struct {
